@@ -40,8 +40,8 @@ CHECKS = {
         "with the op's display name and one cell per input/output port, one cluster per parent nested as the hierarchy, one edge statement per "
         "link with the right endpoints, value edges labelled str(type); the HUGR must be unchanged and the structure config-independent; "
         "a renderer object that has already drawn another HUGR must produce the source a fresh one produces; render_dot() without a configuration and the repository-test corpus are included.",
-        "Trusted: the DOT subset parser (self-tested), display names taken from op.name()/op_def().name as the renderer documents. No layout "
-        "(no dot binary). One open known finding on qualified names.",
+        "Trusted: the DOT subset parser (self-tested), display names taken from op.name()/op_def().name as the renderer documents. Graphviz's own parser (nop; dot on isolated node statements) reads every rendering; a layout failure of Graphviz 2.43 on a source that passes both is undecided. "
+        "One open known finding on qualified names.",
         "DESIGN.md §3 C20",
     ),
     "C13": (
